@@ -13,6 +13,7 @@ import (
 
 	mocker "github.com/tencent/goom"
 	"github.com/tencent/goom/zzverif/corpus/conv"
+	"github.com/tencent/goom/zzverif/corpus/ifc"
 )
 
 type convKind struct {
@@ -240,6 +241,38 @@ func TestVerifArgConv(t *testing.T) {
 			catch(func() { b.Reset() })
 			emit(k.name, "val", fmt.Sprintf("when-variadic-%d-elements", nargs), outcome)
 		}
+	}
+	// conditions on an INTERFACE method whose configuration was started in another style: the values given to When are compared as
+	// the method's declared parameter types (the *IContext of the As() signature is not a parameter) whichever instruction came first
+	for _, first := range []string{"return", "returns", "when"} {
+		b := mocker.Create()
+		outcome := "same"
+		p := catch(func() {
+			h := b.Interface(&ifc.J1).Method("Z").As(func(c *mocker.IContext, a int) int { return 0 })
+			var w *mocker.When
+			switch first {
+			case "return":
+				w = h.Return(9000)
+			case "returns":
+				w = h.Returns(9000, 9000)
+			default:
+				w = h.When(3).Return(9003)
+			}
+			w.When(7).Return(9007).When(8).Return(9008)
+			if r := ifc.J1.Z(7); r != 9007 {
+				outcome = fmt.Sprintf("wrong-condition-not-selected(Z(7)=%d)", r)
+			} else if r := ifc.J1.Z(8); r != 9008 {
+				outcome = fmt.Sprintf("wrong-condition-not-selected(Z(8)=%d)", r)
+			}
+		})
+		if p != "" {
+			outcome = "panic:" + p
+			if len(outcome) > 90 {
+				outcome = outcome[:90]
+			}
+		}
+		catch(func() { b.Reset() })
+		emit("int", "val", "iface-when-after-"+first, outcome)
 	}
 	// selectivity of conditions written as plain constants (type int) on integer parameters of other kinds: the value
 	// is compared as a value of the declared type, exactly - it matches itself and not its neighbours, however large
